@@ -61,6 +61,11 @@ def mono_avg_pairing(ctx, rep, clause):
                 kinds_b = {_family(x)[0] for x in tb}
                 mixed = ('mono' in kinds_a and 'avg' in kinds_b and 'avg' not in kinds_a) or \
                         ('avg' in kinds_a and 'mono' in kinds_b and 'avg' not in kinds_b)
+                # explicit isotopes ('13C', 'D', 'T') have no average mass: `monoisotopic or <isotope-key predicate>`
+                # is the one legitimate widening of the monoisotopic arm
+                ops_ = test.values if isinstance(test, ast.BoolOp) and isinstance(test.op, ast.Or) else None
+                if ops_ is not None and all(_mono_test(v) is True or _isotope_key_atom(v) for v in ops_):
+                    continue
                 if mixed and any(isinstance(x, ast.Name) and x.id == 'monoisotopic' for x in ast.walk(test)):
                     n += 1
                     ob(rep, 'SIB-mono-avg', f.fq, f'table selection `{Canon(f.node).text(test)[:90]}` is decided by the '
@@ -117,7 +122,9 @@ def mode_reads_under_switch(ctx, rep, clause):
                     any(x is c_ for c_ in par.comparators):
                 continue  # a membership test reads the key set, not a mass
             n += 1
-            tests = [t for t, _pol in dominating_tests(f.node, x)] + list(preceding_exits(f.node.body, x))
+            cres = Canon(f.node)
+            tests = [cres.resolve(t) for t, _pol in dominating_tests(f.node, x)] + \
+                    [cres.resolve(t) for t in preceding_exits(f.node.body, x)]
             under = any(_mono_test(t) is not None or
                         (isinstance(t, ast.BoolOp) and any(_mono_test(v) is not None for v in t.values)) for t in tests)
             # `calc_*` fallbacks (`entry.mono_mass if entry.mono_mass is not None else ...`) sit inside a selected arm
@@ -126,6 +133,20 @@ def mode_reads_under_switch(ctx, rep, clause):
                f'`{norm_stmt(parents.get(id(x), x))[:80]}` reads {name} on a path that no test of `monoisotopic` selects: '
                f'on that path the mass has this mode whatever the caller asked for', f.loc(x), clause)
     rep.floor('SIB-mono-avg', 'mode-specific reads in functions taking the switch', n, 10)
+
+
+def _isotope_key_atom(v) -> bool:
+    """x[0].isdigit() / x == 'D' / x == 'T' / x in ('D', 'T')"""
+    if isinstance(v, ast.Call) and isinstance(v.func, ast.Attribute) and v.func.attr == 'isdigit' and \
+            isinstance(v.func.value, ast.Subscript):
+        return True
+    if isinstance(v, ast.Compare) and len(v.ops) == 1:
+        if isinstance(v.ops[0], ast.Eq) and isinstance(v.comparators[0], ast.Constant) and v.comparators[0].value in ('D', 'T'):
+            return True
+        if isinstance(v.ops[0], ast.In) and isinstance(v.comparators[0], (ast.Tuple, ast.List, ast.Set)) and \
+                all(isinstance(x, ast.Constant) and x.value in ('D', 'T') for x in v.comparators[0].elts):
+            return True
+    return False
 
 
 def _mono_test(test):
